@@ -91,6 +91,21 @@ class VDict(V):
         self.did = did
 
 
+class VSet(V):
+    """finite set of ints: membership array + cardinality ghost (state.sets[sid] = (member Array, card Int))"""
+    def __init__(self, sid):
+        self.sid = sid
+
+
+class VSeq(V):
+    """ghost mathematical sequence of ints (z3 Seq Int)"""
+    def __init__(self, t):
+        self.t = t
+
+    def __repr__(self):
+        return "VSeq(%s)" % self.t
+
+
 class VOpt(V):
     """possibly None: none is a z3 Bool; val is the value when not None"""
     def __init__(self, none, val):
@@ -233,6 +248,7 @@ class State:
         self.heap = {}       # (oid, field) -> V
         self.lists = {}      # lid -> ListModel
         self.dicts = {}
+        self.sets = {}
         self.pc = []
         self.ghost = {}      # free-form ghost store (name -> V or python value)
         self.events = []     # discipline events (kind, payload)
@@ -242,6 +258,7 @@ class State:
         s.heap = dict(self.heap)
         s.lists = {k: v.copy() for k, v in self.lists.items()}
         s.dicts = {k: v.copy() for k, v in self.dicts.items()}
+        s.sets = dict(self.sets)
         s.pc = list(self.pc)
         s.ghost = dict(self.ghost)
         return s
@@ -364,6 +381,35 @@ class Engine:
             return VTuple([self.fresh_of_type(t, "%s_%d" % (base, i)) for i, t in enumerate(ty[1])])
         if k == "dict":
             return self.new_dict(DictModel({}, True, (lambda key, _b=base, _t=ty[1]: self.fresh_of_type(_t, _b + "[" + key + "]")), base))
+        if k == "intset":
+            n = self.fresh_name(base + "_member")
+            arr = z3.Array(n, z3.IntSort(), z3.BoolSort())
+            card = self.fresh_int(base + "_card")
+            self.assume(card.t >= 0)
+            sid = next(self._fresh)
+            self.state.sets[sid] = (arr, card.t)
+            return VSet(sid)
+        if k == "seq":
+            n = self.fresh_name(base)
+            c = z3.Const(n, z3.SeqSort(z3.IntSort()))
+            self.vars[n] = c
+            return VSeq(c)
+        if k == "glist":
+            # list of (opaque) objects mirrored by a ghost sequence of their identities
+            n = self.fresh_name(base + "_seq")
+            sq = z3.Const(n, z3.SeqSort(z3.IntSort()))
+            self.vars[n] = sq
+            elem_ty = ty[1]
+            eng = self
+
+            def mk(i, _b=base, _t=elem_ty, _sq=sq):
+                x = eng.fresh_of_type(_t, _b + "_elem")
+                from .builtins_model import elem_id
+                eng.assume(elem_id(eng, x) == _sq[i])
+                return x
+            m = ListModel(None, z3.Length(sq), mk, [], base)
+            m.seq = sq
+            return self.new_list(m)
         if k == "oneof":
             # union of object classes: split by decision
             for i, alt in enumerate(ty[1][:-1]):
@@ -486,6 +532,10 @@ class Engine:
             if m.items is not None:
                 return z3.BoolVal(len(m.items) > 0)
             return m.length > 0
+        if isinstance(v, VSet):
+            return self.state.sets[v.sid][1] > 0
+        if isinstance(v, VSeq):
+            return z3.Length(v.t) > 0
         if isinstance(v, VDict):
             m = self.state.dicts[v.did]
             if not m.open:
@@ -811,7 +861,7 @@ class Engine:
             return VOpaque("excattr:" + attr)
         if isinstance(base, VFunc) and base.kind == "external":
             return VFunc("external", name=base.name + "." + attr)
-        if isinstance(base, (VStr, VList, VDict, VTuple, VInt, VOpaque)):
+        if isinstance(base, (VStr, VList, VDict, VTuple, VInt, VOpaque, VSet)):
             return VFunc("bound-builtin", recv=base, attr=attr, name=attr)
         raise OutOfSubset("attribute %s on %r" % (attr, base), node)
 
@@ -922,6 +972,8 @@ class Engine:
             if isinstance(op, ast.FloorDiv):
                 self.builtin_pre("ZeroDivisionError", r.t != 0, node)
                 return VInt(l.t / r.t)
+        if isinstance(l, VSeq) and isinstance(r, VSeq) and isinstance(op, ast.Add):
+            return VSeq(z3.Concat(l.t, r.t))
         if isinstance(l, VStr) and isinstance(r, VStr) and isinstance(op, ast.Add):
             if l.bytes != r.bytes:
                 raise RaiseSig(VExc("TypeError"))
@@ -1043,6 +1095,8 @@ class Engine:
         raise OutOfSubset("comparison %s on %r, %r" % (type(op).__name__, l, r), node)
 
     def identical(self, l, r):
+        if isinstance(l, VSet) and isinstance(r, VSet):
+            return z3.BoolVal(l.sid == r.sid)
         if isinstance(l, VOpt) and isinstance(r, VNone):
             return l.none
         if isinstance(r, VOpt) and isinstance(l, VNone):
@@ -1083,6 +1137,8 @@ class Engine:
         if isinstance(l, VStr) and isinstance(r, VStr):
             if l.bytes != r.bytes:
                 return z3.BoolVal(False)
+            return l.t == r.t
+        if isinstance(l, VSeq) and isinstance(r, VSeq):
             return l.t == r.t
         if isinstance(l, VNone) or isinstance(r, VNone):
             return z3.BoolVal(isinstance(l, VNone) and isinstance(r, VNone))
@@ -1126,6 +1182,8 @@ class Engine:
             if m.items is not None:
                 return z3.Or([self.eq(item, x) for x in m.items]) if m.items else z3.BoolVal(False)
             return self.fresh_bool("in_list").t
+        if isinstance(container, VSet) and isinstance(item, VInt):
+            return z3.Select(self.state.sets[container.sid][0], item.t)
         if isinstance(container, VDict):
             return self.dict_has(container, item, node)
         if isinstance(container, VOpaque):
